@@ -12,10 +12,10 @@ Import ListNotations.
 Open Scope Z_scope.
 
 (* ---------------------------------------------------------------- env_at changes nothing the invariants read *)
-Lemma inv_env_at e n s : Inv (env_at e n) s <-> Inv e s.
+Lemma inv_env_at e n o s : Inv (env_x e n o) s <-> Inv e s.
 Proof. split; intros [h1 h2 h3 h4 h5]; constructor; assumption. Qed.
 
-Lemma caps_ok_env_at e n : caps_ok e -> caps_ok (env_at e n).
+Lemma caps_ok_env_at e n o : caps_ok e -> caps_ok (env_x e n o).
 Proof. intros H c k. apply H. Qed.
 
 (* ---------------------------------------------------------------- the weak invariant *)
@@ -138,47 +138,47 @@ Proof.
 Qed.
 End Weak.
 
-Lemma in_agents_range e n a : in_agents (env_at e n) a = true -> 1 <= a <= n.
+Lemma in_agents_range e n o a : in_agents (env_x e n o) a = true -> 1 <= a <= n.
 Proof. unfold in_agents. simpl. lia. Qed.
 
 (* every operation of CellSpace.step preserves the weak invariant, from any state satisfying it *)
-Lemma winv_step e n s o s' r :
-  caps_ok e -> WInv e n s -> step (env_at e n) s o = (s', r) -> WInv e n s'.
+Lemma winv_step e n v s o s' r :
+  caps_ok e -> WInv e n s -> step (env_x e n v) s o = (s', r) -> WInv e n s'.
 Proof.
   intros Hc HW H.
-  assert (HW' : WInv (env_at e n) n s) by (destruct HW; constructor; assumption).
-  assert (Hc' : caps_ok (env_at e n)) by (apply caps_ok_env_at; exact Hc).
-  assert (Hback : WInv (env_at e n) n s' -> WInv e n s') by (intros [h1 h2 h3]; constructor; assumption).
+  assert (HW' : WInv (env_x e n v) n s) by (destruct HW; constructor; assumption).
+  assert (Hc' : caps_ok (env_x e n v)) by (apply caps_ok_env_at; exact Hc).
+  assert (Hback : WInv (env_x e n v) n s' -> WInv e n s') by (intros [h1 h2 h3]; constructor; assumption).
   apply Hback. clear Hback.
   destruct o as [a tgt|a c|a d|a name k|a| |tr out|a tr out]; simpl in H.
-  - destruct (in_agents (env_at e n) a) eqn:Ha; simpl in H; [|injection H as <- _; exact HW'].
-    destruct (match tgt with Some c => in_cells (env_at e n) c | None => true end); [|injection H as <- _; exact HW'].
-    eapply winv_assign; [exact Hc'|exact HW'|apply (in_agents_range e); exact Ha|exact H].
-  - destruct (in_agents (env_at e n) a) eqn:Ha; simpl in H; [|injection H as <- _; exact HW'].
-    destruct (in_cells (env_at e n) c && negb (is_fixed (e_kind e a))); [|injection H as <- _; exact HW'].
-    eapply winv_set_cell; [exact Hc'|exact HW'|apply (in_agents_range e); exact Ha|exact H].
-  - destruct (in_agents (env_at e n) a) eqn:Ha; simpl in H; [|injection H as <- _; exact HW'].
+  - destruct (in_agents (env_x e n v) a) eqn:Ha; simpl in H; [|injection H as <- _; exact HW'].
+    destruct (match tgt with Some c => in_cells (env_x e n v) c | None => true end); [|injection H as <- _; exact HW'].
+    eapply winv_assign; [exact Hc'|exact HW'|apply (in_agents_range e n v); exact Ha|exact H].
+  - destruct (in_agents (env_x e n v) a) eqn:Ha; simpl in H; [|injection H as <- _; exact HW'].
+    destruct (in_cells (env_x e n v) c && negb (is_fixed (e_kind e a))); [|injection H as <- _; exact HW'].
+    eapply winv_set_cell; [exact Hc'|exact HW'|apply (in_agents_range e n v); exact Ha|exact H].
+  - destruct (in_agents (env_x e n v) a) eqn:Ha; simpl in H; [|injection H as <- _; exact HW'].
     destruct (negb (is_fixed (e_kind e a))); [|injection H as <- _; exact HW'].
     unfold move_relative in H. destruct (ptr s a) as [c0|]; [|injection H as <- _; exact HW'].
-    destruct (e_conn (env_at e n) c0 d); [|injection H as <- _; exact HW'].
-    eapply winv_set_cell; [exact Hc'|exact HW'|apply (in_agents_range e); exact Ha|exact H].
-  - destruct (in_agents (env_at e n) a) eqn:Ha; simpl in H; [|injection H as <- _; exact HW'].
+    destruct (e_conn (env_x e n v) c0 d); [|injection H as <- _; exact HW'].
+    eapply winv_set_cell; [exact Hc'|exact HW'|apply (in_agents_range e n v); exact Ha|exact H].
+  - destruct (in_agents (env_x e n v) a) eqn:Ha; simpl in H; [|injection H as <- _; exact HW'].
     destruct (is_grid2d (e_kind e a)); [|injection H as <- _; exact HW'].
-    unfold move2d in H. destruct (lookup_dir (e_dirs (env_at e n)) (lower name)); [|injection H as <- _; exact HW'].
+    unfold move2d in H. destruct (lookup_dir (e_dirs (env_x e n v)) (lower name)); [|injection H as <- _; exact HW'].
     destruct (k <=? 0).
-    + eapply winv_set_cell; [exact Hc'|exact HW'|apply (in_agents_range e); exact Ha|exact H].
+    + eapply winv_set_cell; [exact Hc'|exact HW'|apply (in_agents_range e n v); exact Ha|exact H].
     + destruct (ptr s a) as [c0|]; [|injection H as <- _; exact HW'].
-      destruct (walk (env_at e n) l (Z.to_nat k) c0); [|injection H as <- _; exact HW'].
-      eapply winv_set_cell; [exact Hc'|exact HW'|apply (in_agents_range e); exact Ha|exact H].
-  - destruct (in_agents (env_at e n) a) eqn:Ha; [|injection H as <- _; exact HW'].
-    eapply winv_remove; [exact Hc'|exact HW'|apply (in_agents_range e); exact Ha|exact H].
+      destruct (walk (env_x e n v) l (Z.to_nat k) c0); [|injection H as <- _; exact HW'].
+      eapply winv_set_cell; [exact Hc'|exact HW'|apply (in_agents_range e n v); exact Ha|exact H].
+  - destruct (in_agents (env_x e n v) a) eqn:Ha; [|injection H as <- _; exact HW'].
+    eapply winv_remove; [exact Hc'|exact HW'|apply (in_agents_range e n v); exact Ha|exact H].
   - eapply winv_remove_list; [exact Hc'|exact HW'| |exact H].
     intros a Hin. apply filter_In in Hin. destruct Hin as [Hin _]. unfold agents_dom in Hin. simpl in Hin.
     apply zrange_In in Hin. exact Hin.
   - injection H as <- _. exact HW'.
-  - destruct (in_agents (env_at e n) a) eqn:Ha; [|injection H as <- _; exact HW'].
-    destruct (random_empty (env_at e n) s tr out) as [[c|] r0]; [|injection H as <- _; exact HW'].
-    eapply winv_assign; [exact Hc'|exact HW'|apply (in_agents_range e); exact Ha|exact H].
+  - destruct (in_agents (env_x e n v) a) eqn:Ha; [|injection H as <- _; exact HW'].
+    destruct (random_empty (env_x e n v) s tr out) as [[c|] r0]; [|injection H as <- _; exact HW'].
+    eapply winv_assign; [exact Hc'|exact HW'|apply (in_agents_range e n v); exact Ha|exact H].
 Qed.
 
 (* ---------------------------------------------------------------- histories with direct calls: the weak invariant *)
@@ -186,16 +186,16 @@ Definition XW (e : env) (x : xstate) : Prop := WInv e (born x) (xs x) /\ 0 <= bo
 
 Lemma xstep_winv e x o : caps_ok e -> XW e x -> XW e (fst (xstep e x o)).
 Proof.
-  intros Hc [HW Hb]. unfold XW. destruct o as [o'|c a|c a| |w out|w out|w]; simpl.
-  - destruct (step (env_at e (born x)) (xs x) o') as [s' r] eqn:E. simpl. split; [|exact Hb].
+  intros Hc [HW Hb]. unfold XW. destruct o as [o'|c a|c a| |w out|w out|w|w p am|c o2 key|c o2 ks|c ks]; simpl.
+  - destruct (step (env_x e (born x) (ov x)) (xs x) o') as [s' r] eqn:E. simpl. split; [|exact Hb].
     eapply winv_step; eassumption.
-  - destruct (in_cells (env_at e (born x)) c && in_agents (env_at e (born x)) a) eqn:G; [|split; assumption].
+  - destruct (in_cells (env_x e (born x) (ov x)) c && in_agents (env_x e (born x) (ov x)) a) eqn:G; [|split; assumption].
     apply andb_true_iff in G. destruct G as [_ Ga].
-    destruct (add_agent (env_at e (born x)) (xs x) c a) as [s' r] eqn:E. simpl. split; [|exact Hb].
-    assert (WInv (env_at e (born x)) (born x) (xs x)) as HW' by (destruct HW; constructor; assumption).
-    pose proof (winv_add_agent (env_at e (born x)) (caps_ok_env_at e _ Hc) _ _ c a s' r HW' (in_agents_range e _ a Ga) E) as [h1 h2 h3].
+    destruct (add_agent (env_x e (born x) (ov x)) (xs x) c a) as [s' r] eqn:E. simpl. split; [|exact Hb].
+    assert (WInv (env_x e (born x) (ov x)) (born x) (xs x)) as HW' by (destruct HW; constructor; assumption).
+    pose proof (winv_add_agent (env_x e (born x) (ov x)) (caps_ok_env_at e _ _ Hc) _ _ c a s' r HW' (in_agents_range e _ _ a Ga) E) as [h1 h2 h3].
     constructor; assumption.
-  - destruct (in_cells (env_at e (born x)) c && in_agents (env_at e (born x)) a) eqn:G; [|split; assumption].
+  - destruct (in_cells (env_x e (born x) (ov x)) c && in_agents (env_x e (born x) (ov x)) a) eqn:G; [|split; assumption].
     destruct (remove_agent (xs x) c a) as [s' r] eqn:E. simpl. split; [|exact Hb].
     eapply winv_remove_agent; eassumption.
   - destruct (born x <? e_nagents e); simpl; [|split; assumption].
@@ -203,6 +203,10 @@ Proof.
   - split; assumption.
   - split; assumption.
   - split; assumption.
+  - split; assumption.
+  - destruct (in_cells _ c && in_cells _ o2); split; assumption.
+  - destruct (in_cells _ c && in_cells _ o2); split; assumption.
+  - destruct (in_cells _ c); split; assumption.
 Qed.
 
 Lemma xexec_winv e ops : caps_ok e -> forall x, XW e x -> XW e (xexec e x ops).
@@ -240,11 +244,14 @@ Definition is_raw (o : xop) : bool := match o with CellAdd _ _ | CellRemove _ _ 
 
 Lemma xstep_inv e x o : caps_ok e -> is_raw o = false -> Inv e (xs x) -> Inv e (xs (fst (xstep e x o))).
 Proof.
-  intros Hc Hr HI. destruct o as [o'|c a|c a| |w out|w out|w]; try discriminate; simpl; try exact HI.
-  - destruct (step (env_at e (born x)) (xs x) o') as [s' r] eqn:E. simpl.
-    apply (inv_env_at e (born x)). eapply step_inv; [apply caps_ok_env_at; exact Hc| |exact E].
+  intros Hc Hr HI. destruct o as [o'|c a|c a| |w out|w out|w|w p am|c o2 key|c o2 ks|c ks]; try discriminate; simpl; try exact HI.
+  - destruct (step (env_x e (born x) (ov x)) (xs x) o') as [s' r] eqn:E. simpl.
+    apply (inv_env_at e (born x) (ov x)). eapply step_inv; [apply caps_ok_env_at; exact Hc| |exact E].
     apply inv_env_at. exact HI.
   - destruct (born x <? e_nagents e); exact HI.
+  - destruct (in_cells _ c && in_cells _ o2); exact HI.
+  - destruct (in_cells _ c && in_cells _ o2); exact HI.
+  - destruct (in_cells _ c); exact HI.
 Qed.
 
 Lemma xexec_inv e ops : caps_ok e -> forallb (fun o => negb (is_raw o)) ops = true ->
@@ -273,14 +280,15 @@ Proof.
 Qed.
 
 (* xview reads the state pointwise *)
-Lemma xview_eqv e frac n s s' : eqv s s' -> xview e frac {| xs := s; born := n |} = xview e frac {| xs := s'; born := n |}.
+Lemma xview_eqv e frac n v s s' :
+  eqv s s' -> xview e frac {| xs := s; born := n; ov := v |} = xview e frac {| xs := s'; born := n; ov := v |}.
 Proof.
-  intros H. pose proof H as [Hcn [Hf [Hp Hr]]]. unfold xview, space_agents. cbn [xs born].
-  rewrite (eqv_empties (env_at e n) s s' H), (eqv_all_agents (env_at e n) s s' H).
+  intros H. pose proof H as [Hcn [Hf [Hp Hr]]]. unfold xview, space_agents. cbn [xs born ov].
+  rewrite (eqv_empties (env_x e n v) s s' H), (eqv_all_agents (env_x e n v) s s' H).
   f_equal; [|f_equal; f_equal].
   - apply flat_map_ext. intros a. rewrite Hp, Hr. reflexivity.
   - apply flat_map_ext. intros c. unfold xis_full.
-    rewrite Hcn, Hf, (eqv_is_empty s s' c H), (eqv_is_full (env_at e n) s s' c H). reflexivity.
+    rewrite Hcn, Hf, (eqv_is_empty s s' c H), (eqv_is_full (env_x e n v) s s' c H). reflexivity.
 Qed.
 
 (* a rejected operation - API or direct - from a consistent state changes nothing *)
@@ -290,24 +298,28 @@ Lemma xstep_err_atomic e frac x o x' k :
 Proof.
   intros Hc HI H.
   assert (Hgoal : forall s', eqv (xs x) s' ->
-            born {| xs := s'; born := born x |} = born x /\ eqv (xs x) (xs {| xs := s'; born := born x |}) /\
-            xview e frac {| xs := s'; born := born x |} = xview e frac x).
-  { intros s' He. split; [reflexivity|]. split; [exact He|]. destruct x as [s n]. symmetry. apply xview_eqv. exact He. }
-  destruct o as [o'|c a|c a| |w out|w out|w]; simpl in H.
-  - destruct (step (env_at e (born x)) (xs x) o') as [s' r] eqn:E. injection H as <- ->.
+            born (with_xs x s') = born x /\ eqv (xs x) (xs (with_xs x s')) /\
+            xview e frac (with_xs x s') = xview e frac x).
+  { intros s' He. split; [reflexivity|]. split; [exact He|]. destruct x as [s n v]. symmetry. apply xview_eqv. exact He. }
+  destruct o as [o'|c a|c a| |w out|w out|w|w p am|c o2 key|c o2 ks|c ks]; simpl in H.
+  - destruct (step (env_x e (born x) (ov x)) (xs x) o') as [s' r] eqn:E. injection H as <- ->.
     apply Hgoal. eapply step_err_eqv; [apply caps_ok_env_at; exact Hc|apply inv_env_at; exact HI|exact E].
-  - destruct (in_cells (env_at e (born x)) c && in_agents (env_at e (born x)) a); [|discriminate].
-    unfold add_agent in H. destruct (rejects (env_at e (born x)) (xs x) c) eqn:Er; [|discriminate].
+  - destruct (in_cells (env_x e (born x) (ov x)) c && in_agents (env_x e (born x) (ov x)) a); [|discriminate].
+    unfold add_agent in H. destruct (rejects (env_x e (born x) (ov x)) (xs x) c) eqn:Er; [|discriminate].
     injection H as <- _. apply Hgoal. apply eqv_set_flag_same.
     apply (flag_false_of_nonempty e); [exact HI|].
-    apply (rejects_nonempty (env_at e (born x)) (caps_ok_env_at e _ Hc)). exact Er.
-  - destruct (in_cells (env_at e (born x)) c && in_agents (env_at e (born x)) a); [|discriminate].
+    apply (rejects_nonempty (env_x e (born x) (ov x)) (caps_ok_env_at e _ _ Hc)). exact Er.
+  - destruct (in_cells (env_x e (born x) (ov x)) c && in_agents (env_x e (born x) (ov x)) a); [|discriminate].
     unfold remove_agent in H. destruct (memz a (content (xs x) c)); [discriminate|].
     injection H as <- _. apply Hgoal. apply eqv_refl.
   - destruct (born x <? e_nagents e); discriminate.
   - injection H as <- _. destruct x. split; [reflexivity|]. split; [apply eqv_refl|reflexivity].
   - injection H as <- _. destruct x. split; [reflexivity|]. split; [apply eqv_refl|reflexivity].
   - discriminate.
+  - discriminate.
+  - destruct (in_cells _ c && in_cells _ o2); discriminate.
+  - destruct (in_cells _ c && in_cells _ o2); discriminate.
+  - destruct (in_cells _ c); discriminate.
 Qed.
 
 Lemma x_atomic e frac n ops o x' k :
@@ -424,4 +436,129 @@ Proof.
   - destruct (k =? 0) eqn:Ek; destruct (k * den =? 0) eqn:Ekd; simpl; try reflexivity; try (exfalso; nia).
     destruct (n * den >=? k * den) eqn:E1; destruct (n >=? k) eqn:E2; try reflexivity; exfalso; nia.
   - destruct (n * den =? k * den) eqn:E1; destruct (n =? k) eqn:E2; try reflexivity; exfalso; nia.
+Qed.
+
+(* ---------------------------------------------------------------- CellCollection.select(filter, at_most) *)
+Lemma sel_loop_none p l : forall count, sel_loop p None count l = filter p l.
+Proof. induction l as [|c t IH]; intros count; simpl; [reflexivity|]. destruct (p c); rewrite IH; reflexivity. Qed.
+
+Lemma sel_loop_some p k l : forall count, sel_loop p (Some k) count l = firstn (Z.to_nat (k - count)) (filter p l).
+Proof.
+  induction l as [|c t IH]; intros count; simpl; [rewrite firstn_nil; reflexivity|].
+  destruct (count >=? k) eqn:E.
+  - assert (Z.to_nat (k - count) = 0%nat) as -> by lia. reflexivity.
+  - destruct (p c).
+    + rewrite IH. assert (Z.to_nat (k - count) = S (Z.to_nat (k - (count + 1)))) as -> by lia. reflexivity.
+    + apply IH.
+Qed.
+
+(* the counting generator with `break` = the first `limit` members, in order, that pass the filter *)
+Lemma select_spec e s w p am :
+  coll_select e s w p am =
+  match limit_of (zlen (coll_cells e s w)) am with
+  | None => filter (cpred_eval s p) (coll_cells e s w)
+  | Some k => firstn (Z.to_nat k) (filter (cpred_eval s p) (coll_cells e s w))
+  end.
+Proof.
+  unfold coll_select. cbv zeta. destruct (limit_of _ am) as [k|]; [|apply sel_loop_none].
+  rewrite sel_loop_some. rewrite Z.sub_0_r. reflexivity.
+Qed.
+
+Lemma firstn_In {A} (n : nat) (l : list A) x : In x (firstn n l) -> In x l.
+Proof. revert l. induction n as [|n IH]; intros [|y t]; simpl; try tauto. intros [H|H]; [left; exact H|right; apply IH; exact H]. Qed.
+
+Lemma firstn_NoDup {A} (n : nat) (l : list A) : NoDup l -> NoDup (firstn n l).
+Proof.
+  revert l. induction n as [|n IH]; intros [|y t] H; simpl; try constructor.
+  - inversion H; subst. intros Hin. apply firstn_In in Hin. contradiction.
+  - inversion H; subst. apply IH. assumption.
+Qed.
+
+Lemma select_exact e s w p am :
+  let r := coll_select e s w p am in
+  (forall c, In c r -> In c (coll_cells e s w) /\ cpred_eval s p c = true) /\
+  NoDup r /\
+  (forall k, limit_of (zlen (coll_cells e s w)) am = Some k -> 0 <= k -> zlen r <= k) /\
+  (forall k, limit_of (zlen (coll_cells e s w)) am = Some k ->
+             zlen (filter (cpred_eval s p) (coll_cells e s w)) <= k -> r = filter (cpred_eval s p) (coll_cells e s w)) /\
+  (am = AInf -> r = filter (cpred_eval s p) (coll_cells e s w)).
+Proof.
+  intros r. unfold r. rewrite select_spec.
+  pose proof (coll_cells_NoDup e s w) as Hn.
+  split; [|split; [|split; [|split]]].
+  - intros c. destruct (limit_of _ am); [intros H; apply firstn_In in H|intros H]; apply filter_In in H; exact H.
+  - destruct (limit_of _ am); [apply firstn_NoDup|]; apply NoDup_filter; exact Hn.
+  - intros k -> Hk. unfold zlen. rewrite firstn_length. lia.
+  - intros k -> Hk. apply firstn_all2. unfold zlen in Hk. lia.
+  - intros ->. reflexivity.
+Qed.
+
+(* a float fraction is rounded down and never exceeds the collection *)
+Lemma select_fraction_floor len num den :
+  0 < den -> 0 <= num <= den -> 0 <= len ->
+  limit_of len (AFrac num den) = Some (len * num / den) /\ 0 <= len * num / den <= len.
+Proof.
+  intros Hd Hn Hl. split; [reflexivity|]. split.
+  - apply Z.div_pos; nia.
+  - apply Z.div_le_upper_bound; nia.
+Qed.
+
+(* ---------------------------------------------------------------- Cell.connect / Cell.disconnect *)
+Lemma ov_get_hit c d t r : ov_get (((c, d), t) :: r) c d = Some t.
+Proof.
+  simpl. rewrite Z.eqb_refl. assert (zlist_eqb d d = true) as -> by (apply zlist_eqb_eq; reflexivity). reflexivity.
+Qed.
+
+Lemma ov_get_miss c d t r c' d' : (c, d) <> (c', d') -> ov_get (((c, d), t) :: r) c' d' = ov_get r c' d'.
+Proof.
+  intros H. simpl. destruct (Z.eqb_spec c c') as [->|]; [|reflexivity].
+  destruct (zlist_eqb d d') eqn:E; [|reflexivity]. apply zlist_eqb_eq in E. subst. contradiction.
+Qed.
+
+(* cell.connect(other, key): that connection now leads to other, every other connection is as before *)
+Lemma connect_spec e x c other key x' r :
+  xstep e x (Connect c other key) = (x', r) -> r <> NotApplicable ->
+  xs x' = xs x /\ born x' = born x /\
+  e_conn (env_x e (born x') (ov x')) c key = Some other /\
+  (forall c' d', (c, key) <> (c', d') ->
+     e_conn (env_x e (born x') (ov x')) c' d' = e_conn (env_x e (born x) (ov x)) c' d').
+Proof.
+  cbn [xstep]. destruct (in_cells _ c && in_cells _ other); intros H; injection H as <- <-; [|congruence].
+  intros _. unfold with_ov, env_x. cbn [xs born ov e_conn]. rewrite ov_get_hit. repeat split.
+  intros c' d' Hne. rewrite (ov_get_miss c key (Some other) (ov x) c' d' Hne). reflexivity.
+Qed.
+
+Lemma ov_get_deleted c (f : list Z -> bool) ks r : forall c' d,
+  ov_get (map (fun d => ((c, d), None)) (filter f ks) ++ r) c' d =
+  if (c =? c') && existsb (fun k => zlist_eqb k d) (filter f ks) then Some None else ov_get r c' d.
+Proof.
+  intros c' d. destruct (c =? c') eqn:Ec; simpl.
+  - induction (filter f ks) as [|k t IH]; simpl; [reflexivity|]. rewrite Ec. simpl.
+    destruct (zlist_eqb k d); simpl; [reflexivity|exact IH].
+  - induction (filter f ks) as [|k t IH]; simpl; [reflexivity|]. rewrite Ec. simpl. exact IH.
+Qed.
+
+(* cell.disconnect(other): no key of the history leads from cell to other any more; everything else is as before *)
+Lemma disconnect_spec e x c other ks x' r :
+  xstep e x (Disconnect c other ks) = (x', r) -> r <> NotApplicable ->
+  xs x' = xs x /\ born x' = born x /\
+  (forall d, In d ks -> e_conn (env_x e (born x') (ov x')) c d <> Some other) /\
+  (forall c' d, c' <> c \/ e_conn (env_x e (born x) (ov x)) c' d <> Some other ->
+     e_conn (env_x e (born x') (ov x')) c' d = e_conn (env_x e (born x) (ov x)) c' d).
+Proof.
+  cbn [xstep]. destruct (in_cells _ c && in_cells _ other); intros H; injection H as <- <-; [|congruence].
+  intros _. unfold with_ov, env_x. cbn [xs born ov e_conn]. repeat split.
+  - intros d Hd. rewrite (ov_get_deleted c). rewrite Z.eqb_refl. simpl.
+    set (f := fun d0 => opt_eqb match ov_get (ov x) c d0 with Some t => t | None => e_conn e c d0 end (Some other)).
+    destruct (existsb (fun k => zlist_eqb k d) (filter f ks)) eqn:Ex; [discriminate|].
+    intros Hc. assert (existsb (fun k => zlist_eqb k d) (filter f ks) = true); [|congruence].
+    apply existsb_exists. exists d. split; [|apply zlist_eqb_eq; reflexivity].
+    apply filter_In. split; [exact Hd|]. unfold f. rewrite Hc. simpl. apply Z.eqb_refl.
+  - intros c' d Hor. rewrite (ov_get_deleted c).
+    destruct (Z.eqb_spec c c') as [<-|Hne]; simpl; [|reflexivity].
+    set (f := fun d0 => opt_eqb match ov_get (ov x) c d0 with Some t => t | None => e_conn e c d0 end (Some other)).
+    destruct (existsb (fun k => zlist_eqb k d) (filter f ks)) eqn:Ex; [|reflexivity].
+    exfalso. apply existsb_exists in Ex. destruct Ex as [k [Hk Hkd]]. apply zlist_eqb_eq in Hkd. subst k.
+    apply filter_In in Hk. destruct Hk as [_ Hf]. unfold f in Hf. apply opt_eqb_true in Hf.
+    destruct Hor as [Hor|Hor]; [congruence|]. apply Hor. exact Hf.
 Qed.
